@@ -8,6 +8,15 @@ import sys
 HERE = os.path.dirname(os.path.dirname(os.path.abspath(__file__)))
 
 CHECKS = {
+    "C01": dict(
+        technique="TLC model checking of Tick.tla/MC_C01.tla (all enqueue orders and repetitions; outcome = oracle of the candidate set) + spec->impl replay into a real Engine on 4 configurations + model-derived metamorphic relation on real hashes per candidate set",
+        text="TLC explores every enqueue sequence (order and repetition) over a candidate universe of data-driven rewrite programs with honest footprints on several multi-instance "
+             "pre-states, through explicit Enqueue/Drain/Reserve/Commit actions, and proves the committed outcome equals a declarative oracle of the candidate SET (canonical greedy "
+             "admission; post = pre patched by exactly the accepted effects evaluated at pre). Every behaviour is replayed into a real Engine (Radix/Legacy x 1/4 workers): receipt order, "
+             "dispositions, blockers, post-state and patch replay must equal the oracle, and within each (pre-state, candidate set) group state root, patch digest, commit id, "
+             "plan/decision/rewrites digests and receipt digest must be bit-identical. Several id salts explore several canonical key orders.",
+        note="Bounded model (pre-states, candidate universe, sequence length); table-driven rules (harness/src/programs.rs) mirror spec/Tick.tla Prog; scope-hash order supplied by the harness; batch sizes beyond the 1024 threshold are covered by the C03 drain-order traces.",
+        design="3 C01"),
     "C03": dict(
         technique="TLC model checking of Footprint.tla/Scheduler.tla/MC_C03.tla (all footprint-class tuples, Radix and Legacy in lock-step vs declarative greedy oracle) + spec->impl replay through the raw scheduler hook + trace validation of drain order (SchedulerTrace.tla)",
         text="TLC enumerates every pair (512^2 in thorough), triple and quadruple of footprint classes and proves on the model that the transcribed Radix and Legacy reserve "
